@@ -51,7 +51,19 @@ RULE = ("Scenarios = (algorithm/nonce length, client and server sender-ID length
         "request accepted and answered (nonce re-used), recipient state lost (window uninitialised, "
         "Echo recovery), the same request replayed -> 4.01 + Echo challenge -> request with the "
         "Echo value -> response, with every (key, nonce) pair handed to the AEAD collected over the "
-        "whole history. Boundary table enumerated in full; random part from env.rng. A case is "
+        "whole history. Round 4: every single-bit change of the outer code byte and bytes appended to the "
+        "OSCORE option for every request and response (the oracle's option reader is the strict RFC 8613 "
+        "6.1 / 5 grammar: what it calls malformed must be refused); Proxy-Uri requests of every shape "
+        "(5 authorities x 6 paths x 6 queries, schemes rotating; judged whenever protect() succeeds: no "
+        "Uri-Path / Uri-Query / path or query marker / Proxy-Uri beyond scheme and authority outside, path "
+        "and query back as Uri-Path / Uri-Query); the lives of a process on the real "
+        "FilesystemSecurityContext: killed or stopped after EVERY count k = 0..75 of protects of the first "
+        "life, after k2 of the second, protecting again; orderly stops mixed in; other chunk "
+        "configurations; start values around the Partial-IV length boundaries and the last number; random "
+        "histories with notifications and Echo challenges - compared with the Lean sendRun, the oracle "
+        "demanding that no Partial IV / (key, nonce) pair occurs twice over all lives and that one peer "
+        "with a lasting replay window accepts every genuine message. "
+        "Boundary table enumerated in full; random part from env.rng. A case is "
         "non-trivial when the message has inner options or payload and the step's outcome is "
         "determined by the property (accepted round trip / rejected manipulation).")
 TRUSTED = ["system libcrypto (AES-CCM through ctypes) for the RFC 8613 appendix C replay only",
@@ -63,7 +75,9 @@ ASSUMPTIONS = ["AEAD: decryption inverts encryption; what decrypts under (key, n
                "satisfied by the transparent instance, cryptographic strength of real AES-CCM not proved",
                "key derivation (HKDF) yields different keys for different contexts (checked on the "
                "generated contexts, not modelled)",
-               "Group OSCORE, deterministic requests, appendix B.2, Proxy-Uri splitting are out of model",
+               "Group OSCORE, deterministic requests, appendix B.2 are out of model; Proxy-Uri splitting is oracle only",
+               "crash histories of C11: the process dies BETWEEN operations (kill / orderly stop); a process dying inside "
+               "_store, and I/O errors survived by the process, are C13's subject / outside the quantifier",
                "replay protection as such (at most once, window sizes, persistence) is C12's / C13's subject; "
                "here the window only matters for 'a rejected message consumes nothing' and for which "
                "request nonces may be re-used; single-message cases use fresh recipient windows"]
@@ -1650,7 +1664,9 @@ def run(env, rep):
                 raise HarnessError(f"generator produced no case of kind {need}")
     rep.exhaustive_parts.append("all single-bit flips of OSCORE option and ciphertext on 4 exchanges; "
                                 "all ID-length pairs 0..7; all Partial-IV length boundaries; "
-                                "all 256 first bytes of the OSCORE option")
+                                "all 256 first bytes of the OSCORE option; all single-bit changes of the outer code "
+                                "of every request and response; every kill point 0..75 protects into the first life "
+                                "of a persisted context; all 180 Proxy-Uri shapes")
 
 
 def replay(env, case):
